@@ -23,6 +23,9 @@ type c04Dev struct {
 	log    []c04Rec
 	pos    int64
 	writes int
+	// window (byte offsets) inside which writes at symbolic offsets may land; the log is only
+	// consulted for reads inside it
+	winLo, winHi int64
 	// symCap: upper bound of the length of a write whose length is symbolic (= the vp.AllocCap
 	// in force when the library allocates the buffer it passes to WriteAt)
 	symCap int
@@ -59,6 +62,9 @@ func (d *c04Dev) setBase(o int64, v byte) {
 // byteAt: content at concrete offset o.
 func (d *c04Dev) byteAt(o int64) byte {
 	v := d.baseAt(o)
+	if o < d.winLo || o >= d.winHi {
+		return v
+	}
 	for i := range d.log {
 		r := &d.log[i]
 		idx := o - r.off
@@ -80,7 +86,7 @@ func (d *c04Dev) ReadAt(p []byte, off int64) (int, error) {
 	if off+int64(n) > d.size {
 		return 0, io.EOF
 	}
-	if len(d.log) == 0 && vp.IsConst(int64(n)) {
+	if (len(d.log) == 0 || off+int64(n) <= d.winLo || off >= d.winHi) && vp.IsConst(int64(n)) {
 		// fast path: chunk-wise copy
 		done := 0
 		for done < n {
@@ -115,7 +121,17 @@ func (d *c04Dev) WriteAt(p []byte, off int64) (int, error) {
 	if off+int64(n) > d.size {
 		return 0, fmt.Errorf("c04Dev: write past end of device")
 	}
-	if len(d.log) == 0 && vp.IsConst(off) {
+	if !vp.IsConst(off) {
+		// file data at a symbolic file offset: it must land inside the window the harness declared
+		// (the blocks that can belong to the file)
+		vp.Assert(off >= d.winLo, "data written at a symbolic offset lands inside the file's blocks (low)")
+		vp.Assert(off+int64(n) <= d.winHi, "data written at a symbolic offset lands inside the file's blocks (high)")
+	}
+	reach := int64(n)
+	if !vp.IsConst(reach) {
+		reach = int64(d.symCap)
+	}
+	if vp.IsConst(off) && (len(d.log) == 0 || off+reach <= d.winLo || off >= d.winHi) {
 		if vp.IsConst(int64(n)) {
 			done := 0
 			for done < n {
